@@ -86,7 +86,7 @@ CHECKS.update({
         technique="grammar-based property testing of the public client layers and the real connection builder with the wire captured; oracle = statement-derived expectations on request target, Host header, version, stripped headers and protocol selection",
         text="Requests from a grammar (schemes, hosts incl. IPv4/IPv6, ports, paths, queries, URI forms, methods incl. CONNECT, all versions, pre-set headers) crossed with connection outcomes (request version x ALPN) go through SetHostHeader/Http2Checks/Http1Checks over a stub connection, through ConnectionPoolService (pooled/unpooled) and ConnectorService with stub collaborators, and through the real HttpConnectionBuilder + RequestExecutor with the bytes captured: preface iff HTTP/2 requested or ALPN h2; HTTP/1 target, Host (caller's preserved) and HTTP/2 header stripping / CONNECT rejection as stated.",
         note="Trusted base: the http crate decides which requests are well-typed; hyper serialises the final http::Request (target compared via to_string and, in the wire leg, parsed from the captured bytes); for schemes without a default port either Host form is accepted."),
-    "C17": dict(engine="reqgrammar", ref="§5 C17, §4 E6",
+    "C17": dict(engine="reqgrammar+tlswire", ref="§5 C17, §4 E6/E5",
         technique="grammar-based robustness testing with a process-wide panic hook and catch_unwind: any panic located in the library (caller task or spawned task) is a violation; debug assertions on",
         text="The C13 request grammar (every http::Version constant, standard/extension methods incl. CONNECT, absolute/origin/authority/asterisk forms, DNS/IPv4/bracketed IPv6/unusual hosts, header sets, bodies) is sent through the check layers, ConnectionPoolService with and without pool, ConnectorService and the real connection builder; panics caught by the runtime in spawned tasks are observed through the hook.",
         note="Trusted base: panic hook + location filter (/repo/); full-stack TLS/TCP legs live in the C12 engine (tlswire) and netsim."),
@@ -127,6 +127,14 @@ NOT_YET = {
     "C19": "check not built yet (engine E9 timeout in progress)",
     "C20": "check not built yet (engine E10 sni in progress)",
 }
+
+CHECKS.update({
+    "C12": dict(engine="tlswire", ref="§5 C12, §4 E5",
+        technique="property-based testing with fault injection at the TLS peer: generated (scheme, host form, port, peer behaviour, ALPN, client TLS) combinations through the real TlsTransport with the client's wire recorded; oracle = TLS record framing of every byte, absence of a secret token, outcome vs certificate validity, SNI seen by the peer",
+        text="For https/wss with a client TLS configuration every byte put on the wire must parse as TLS records and never contain the application secret; a stream is only returned after a handshake with a peer whose (fixture) certificate is valid for the URI host and the SNI offered equals that host; mismatching, untrusted, plaintext, closing, truncating and silent peers yield an error or nothing, never a stream; other schemes pass bytes verbatim; no syntactically valid host panics.",
+        note="Trusted base: rustls on both ends, the committed 100-year fixture certificates and the system clock inside their validity; ALPN offers without overlap are accepted either way."),
+})
+NOT_YET = {}
 
 def main():
     checks = []
